@@ -55,22 +55,29 @@ func (r *ReceivedMessageReader[C]) C() chan<- *pool.Message {
 // If the client is closed, the loop also closes.
 func (r *ReceivedMessageReader[C]) loop(loopDone chan struct{}, readingMessages *atomic.Bool) {
 	for {
+		verifYield(r, "select")
 		select {
 		// if the loop is replaced, the old loop will be closed
 		case <-loopDone:
+			verifYield(r, "exit")
 			return
 		// process received message until the queue is empty
 		case req := <-r.queue:
+			verifYield(r, "dequeued")
 			// This signalizes that the loop is not reading messages.
 			readingMessages.Store(false)
+			verifYield(r, "busy")
 			r.cc.ProcessReceivedMessage(req)
+			verifYield(r, "relock")
 			// This signalizes that the loop is reading messages. We call mutex because we want to ensure that TryToReplaceLoop has ended and
 			// loopDone is closed if it was replaced.
 			r.private.mutex.Lock()
 			readingMessages.Store(true)
 			r.private.mutex.Unlock()
+			verifYield(r, "relocked")
 		// if the client is closed, the loop will be closed
 		case <-r.cc.Done():
+			verifYield(r, "exit")
 			return
 		}
 	}
@@ -81,6 +88,7 @@ func (r *ReceivedMessageReader[C]) loop(loopDone chan struct{}, readingMessages 
 // the function returns immediately. If the loop is not reading messages, the current loop is closed,
 // and new loopDone and readingMessages channels and variables are created.
 func (r *ReceivedMessageReader[C]) TryToReplaceLoop() {
+	verifYield(r, "replace")
 	r.private.mutex.Lock()
 	if r.private.readingMessages.Load() {
 		r.private.mutex.Unlock()
@@ -92,5 +100,6 @@ func (r *ReceivedMessageReader[C]) TryToReplaceLoop() {
 	readingMessages := atomic.NewBool(true)
 	r.private.loopDone = loopDone
 	r.private.readingMessages = readingMessages
+	verifYield(r, "replaced")
 	go r.loop(loopDone, readingMessages)
 }
